@@ -4,9 +4,11 @@ Two call sites of the parser inside `Fandango.fuzz`:
 * a generator-defined nonterminal (`<g> ::= BODY := "word"`): the generator's output is parsed under `<g>`;
 * equality repair (`where <g> == "word"`): the wanted value is parsed under `<g>` to build the replacement.
 
-fuzz_case(task) -> {"status": "ok" | "steplimit" | "timeout" | "exc:<Class>" | "spec_error:<Class>",
+fuzz_case(task) -> {"status": "ok" | "budget" (task["total_budget"] metered steps used, every request returned) | "steplimit" | "timeout" | "exc:<Class>" | "spec_error:<Class>",
                     "meter": {"adds", "completes"}, "solutions": n}
-task: {"spec": text, "constraints": [text] | None, "step_limit": int, "cap_s": float, "seed": int}
+task: {"spec": text, "constraints": [text] | None, "step_limit": int (metered steps of ONE internal parse request),
+       "cap_s": float, "seed": int}
+"steplimit" comes with "last_request": the (start, mode, word) of the request that exceeded the limit.
 """
 from __future__ import annotations
 
@@ -42,6 +44,8 @@ def fuzz_case(task: dict) -> dict:
                 res["status"] = f"spec_error:{type(e).__name__}"
                 return res
             eio._Reg.limit = int(task.get("step_limit", 100000))
+            eio._Reg.per_request = True          # the limit is per parse request: a fuzz run makes thousands of them
+            eio._Reg.total_budget = task.get("total_budget")
             fan = Fandango._with_parsed(grammar, constraints, start_symbol="<start>")
             sols = fan.fuzz(desired_solutions=2, max_generations=int(task.get("max_generations", 2)),
                             population_size=int(task.get("population_size", 4)))
@@ -50,6 +54,8 @@ def fuzz_case(task: dict) -> dict:
             status = "timeout"
         except eio.StepLimit:
             status = "steplimit"
+        except eio.StepBudget:
+            status = "budget"
         except RecursionError:
             status = "exc:RecursionError"
         except Exception as e:  # noqa
@@ -58,8 +64,16 @@ def fuzz_case(task: dict) -> dict:
         signal.setitimer(signal.ITIMER_REAL, 0)
         signal.signal(signal.SIGALRM, old)
         eio._Reg.limit = None
+        eio._Reg.per_request = False
+        eio._Reg.total_budget = None
     res["status"] = status
     res["solutions"] = nsol
-    res["meter"] = {"adds": eio._Reg.adds, "completes": eio._Reg.completes, "admitted": eio._Reg.admitted}
+    res["meter"] = {"adds": eio._Reg.adds, "completes": eio._Reg.completes, "admitted": eio._Reg.admitted,
+                    "requests": eio._Reg.nrequests}
+    rq = eio._Reg.request
+    if status in ("steplimit", "exc:RecursionError") and rq is not None and isinstance(rq.get("word"), (str, bytes)):
+        # the parse request that was running when the meter stopped the run
+        res["last_request"] = {"start": rq["start"], "mode": rq["mode"], "word": eio.word_json(rq["word"]),
+                               "steps": eio._Reg.adds + eio._Reg.completes - rq["at"]}
     eio._reset()
     return res
